@@ -686,7 +686,9 @@ def build_cases(ck):
         for fn in sorted(os.listdir(cdir)):
             if fn.endswith(".json"):
                 c = json.load(open(os.path.join(cdir, fn)))
-                meta = {"name": "corpus/" + fn[:-5], "expect": c.get("expect"), "group": group(), "data": "".join(c["case"]["chunks"])}
+                # "name" lets a regression case report under the key of the finding it belongs to
+                meta = {"name": c.get("name", "corpus/" + fn[:-5]), "corpus": True, "expect": c.get("expect"), "group": group(),
+                        "data": "".join(c["case"]["chunks"])}
                 (S if c["role"] == "server" else Cc).append((c["case"], meta))
     reps = 2 if q else 6
     for name, fn, ex in server_mutations():
@@ -1009,7 +1011,7 @@ def report_escapes(ck, S, Cc):
         by = {}
         for case, meta in cases:
             for fw, cls in (meta.get("escaped") or {}).items():
-                by.setdefault(cls, []).append((len(meta.get("data", "")), meta["name"].startswith("corpus/") and -1 or 0, fw, case, meta))
+                by.setdefault(cls, []).append((len(meta.get("data", "")), meta.get("corpus") and -1 or 0, fw, case, meta))
         for cls, lst in sorted(by.items()):
             lst.sort(key=lambda t: (t[1], t[0]))
             _, _, fw, case, meta = lst[0]
@@ -1048,7 +1050,7 @@ def model_compare(ck, S, Cc, E, RES):
                 y = RES["tx"][role][i]
                 same = fw == "aio" and all(y.get(k) == x.get(k) for k in ("outcome", "tables", "cfg", "request"))
                 nm = meta["name"]
-                if nm.startswith("corpus/"): pr = 0
+                if meta.get("corpus"): pr = 0
                 elif x["outcome"]["kind"] in ("escaped", "stuck", "status", "redirect", "flash"): pr = 1
                 elif nm.startswith("grammar/") and not meta.get("rich") and len(case["chunks"]) == 1: pr = 1
                 elif nm.startswith("flash"): pr = 1
